@@ -190,6 +190,52 @@ def attestationSigHashBody : List String := [
   "return hashAll(\"sig/attestation\", s.v2ReplayPrefix(), a)"
 ]
 
+/-! ### the Merkle accumulator under the block commitments (package blake2b), block weight -/
+
+/-- `AddLeaf`: merge with the trees of equal height, lowest first (mirrored by `Sia.Policy.accAddG`) -/
+def accumulatorAddLeafBody : List String := [
+  "i := 0",
+  "for ; acc.hasTreeAtHeight(i); i++ { h = SumPair(acc.Trees[i], h) }",
+  "acc.Trees[i] = h",
+  "acc.NumLeaves++"
+]
+
+/-- `Root`: start from the lowest tree, fold the higher ones on the left (mirrored by `Sia.Policy.accRootG`) -/
+def accumulatorRootBody : List String := [
+  "i := bits.TrailingZeros64(acc.NumLeaves)",
+  "if i == 64 { return [32]byte{} }",
+  "root := acc.Trees[i]",
+  "for i++; i < 64; i++ { if acc.hasTreeAtHeight(i) { root = SumPair(acc.Trees[i], root) } }",
+  "return root"
+]
+
+def accumulatorHasTreeBody : List String := [
+  "return acc.NumLeaves&(1<<height) != 0"
+]
+
+/-- a node is the hash of the 65 bytes `nodeHashPrefix ‖ left ‖ right` -/
+def sumPairBody : List String := [
+  "return hashBlock((*[64]byte)(unsafe.Pointer(&[2][32]byte{left, right})), nodeHashPrefix)"
+]
+def hashBlockGenericBody : List String := [
+  "var buf [65]byte",
+  "buf[0] = byte(prefix)",
+  "copy(buf[1:], msg[:])",
+  "return blake2b.Sum256(buf[:])"
+]
+
+def maxBlockWeightBody : List String := [
+  "return 2_000_000"
+]
+/-- the weight of a v1 transaction is the length of its encoding -/
+def transactionWeightBody : List String := [
+  "var wc writeCounter",
+  "e := types.NewEncoder(&wc)",
+  "txn.EncodeTo(e)",
+  "e.Flush()",
+  "return uint64(wc.n)"
+]
+
 /-! ### authorisation call shapes (C03) -/
 
 def contractSigCheckParams : List String := ["fc", "renter", "host"]
